@@ -3,8 +3,8 @@
    implementation did at every step (its response, the driver's records when they changed, the contents of
    core.history._samples_cache).  [bad_model] = cases where the model (Model.step) does something else;
    [bad_spec] = cases where the implementation contradicts the specification (Spec.spec_step).
-   Both return  100 * case index + index of the first offending step (as Z: unary nat results of this size are slow to build and print). *)
-From QT Require Export C18.Spec.
+   Both return  1000 * case index + index of the first offending step (as Z: unary nat results of this size are slow to build and print). *)
+From QT Require Export C18.Spec C18.Interleave C18.SpecI.
 Open Scope Z_scope.
 
 Definition sample_eqb (a b : sample) : bool := (s_oid a =? s_oid b) && (s_ts a =? s_ts b) && (s_val a =? s_val b).
@@ -29,17 +29,17 @@ Definition cache_same (obs model : cache) : bool :=
 
 (* what the implementation did at one step *)
 Definition observation := (response * option store * cache)%type.
-Definition case := (config * store * Z * list (request * observation))%type.
+Definition case := (config * store * Z * list (ievent * observation))%type.
 
 Definition store_agrees (dump : option store) (st : store) : bool :=
   match dump with None => true | Some d => list_eqb sample_eqb d st end.
 
-Fixpoint first_bad_model (cfg : config) (st : state) (steps : list (request * observation)) (i : Z) : option Z :=
+Fixpoint first_bad_model (cfg : config) (st : istate) (steps : list (ievent * observation)) (i : Z) : option Z :=
   match steps with
   | [] => None
-  | (r, (resp, dump, c)) :: rest =>
-      let '(st', out) := step cfg st r in
-      if response_eqb out resp && store_agrees dump (st_store st') && cache_same c (st_cache st')
+  | (e, (resp, dump, c)) :: rest =>
+      let '(st', out) := istep cfg st e in
+      if response_eqb out resp && store_agrees dump (st_store (i_st st')) && cache_same c (st_cache (i_st st'))
       then first_bad_model cfg st' rest (i + 1) else Some i
   end.
 
@@ -74,16 +74,26 @@ Definition spec_response_ok (strict : bool) (cfg : config) (s : store * Z) (r : 
 Definition store_same_multiset (a b : store) : bool :=
   Nat.eqb (List.length a) (List.length b) && forallb (fun x => Nat.eqb (List.length (filter (sample_eqb x) a)) (List.length (filter (sample_eqb x) b))) a.
 
-Fixpoint first_bad_spec (strict : bool) (cfg : config) (s : store * Z) (steps : list (request * observation)) (i : Z)
+(* requests that run alone are compared as before (exactly, or tie-tolerantly for drivers without a stable order);
+   segments of overlapping requests go to SpecI.ispec_step *)
+Definition spec_event (strict : bool) (cfg : config) (s : wstate) (e : ievent) (resp : response) : wstate * bool :=
+  match e with
+  | ISeq r =>
+      let '(s', expected) := spec_step cfg (ws_store s, ws_now s) r in
+      ({| ws_store := fst s'; ws_now := snd s'; ws_open := publish (ws_open s) (fst s') |},
+       match expected with Some x => spec_response_ok strict cfg (ws_store s, ws_now s) r x resp | None => true end)
+  | _ => ispec_step cfg s e resp
+  end.
+
+Fixpoint first_bad_spec (strict : bool) (cfg : config) (s : wstate) (steps : list (ievent * observation)) (i : Z)
   : option Z :=
   match steps with
   | [] => None
-  | (r, (resp, dump, _)) :: rest =>
-      let '(s', expected) := spec_step cfg s r in
-      let resp_ok := match expected with Some e => spec_response_ok strict cfg s r e resp | None => true end in
+  | (e, (resp, dump, _)) :: rest =>
+      let '(s', resp_ok) := spec_event strict cfg s e resp in
       let store_ok := match dump with
                       | None => true
-                      | Some d => if strict then list_eqb sample_eqb d (fst s') else store_same_multiset d (fst s')
+                      | Some d => if strict then list_eqb sample_eqb d (ws_store s') else store_same_multiset d (ws_store s')
                       end in
       if resp_ok && store_ok then first_bad_spec strict cfg s' rest (i + 1) else Some i
   end.
@@ -92,16 +102,21 @@ Fixpoint collect (f : case -> option Z) (cases : list case) (i : Z) : list Z :=
   match cases with
   | [] => []
   | c :: rest => match f c with
-                 | Some j => (100 * i + j) :: collect f rest (i + 1)
+                 | Some j => (1000 * i + j) :: collect f rest (i + 1)
                  | None => collect f rest (i + 1)
                  end
   end.
 
 Definition bad_model (cases : list case) : list Z :=
   collect (fun '(cfg, st0, now0, steps) =>
-             first_bad_model cfg {| st_store := st0; st_cache := []; st_now := now0 |} steps 0) cases 0.
+             first_bad_model cfg (istate_of {| st_store := st0; st_cache := []; st_now := now0 |}) steps 0) cases 0.
+(* schedules outside the premise of the interleaving theorem *)
+Definition bad_sched (cases : list case) : list Z :=
+  collect (fun '(cfg, st0, now0, steps) =>
+             if sched_okb cfg (istate_of {| st_store := st0; st_cache := []; st_now := now0 |}) (map fst steps)
+             then None else Some 0) cases 0.
 Definition bad_spec (cases : list case) : list Z :=
-  collect (fun '(cfg, st0, now0, steps) => first_bad_spec true cfg (st0, now0) steps 0) cases 0.
+  collect (fun '(cfg, st0, now0, steps) => first_bad_spec true cfg {| ws_store := st0; ws_now := now0; ws_open := [] |} steps 0) cases 0.
 (* for drivers whose order among equal timestamps is unspecified (Redis sets, MongoDB) *)
 Definition bad_spec_relaxed (cases : list case) : list Z :=
-  collect (fun '(cfg, st0, now0, steps) => first_bad_spec false cfg (st0, now0) steps 0) cases 0.
+  collect (fun '(cfg, st0, now0, steps) => first_bad_spec false cfg {| ws_store := st0; ws_now := now0; ws_open := [] |} steps 0) cases 0.
